@@ -464,13 +464,20 @@ class RTCRtpSender:
                 await self._send_rtcp(packets)
         except asyncio.CancelledError:
             pass
+        except Exception:
+            # we *need* to set __rtcp_exited, otherwise RTCRtpSender.stop() will hang,
+            # so issue a warning if we hit an unexpected exception
+            self.__log_warning(traceback.format_exc())
 
         # RTCP BYE
-        packet = RtcpByePacket(sources=[self._ssrc])
-        await self._send_rtcp([packet])
-
-        self.__log_debug("- RTCP finished")
-        self.__rtcp_exited.set()
+        try:
+            packet = RtcpByePacket(sources=[self._ssrc])
+            await self._send_rtcp([packet])
+        except Exception:
+            self.__log_warning(traceback.format_exc())
+        finally:
+            self.__log_debug("- RTCP finished")
+            self.__rtcp_exited.set()
 
     async def _send_rtcp(self, packets: list[AnyRtcpPacket]) -> None:
         payload = b""
